@@ -163,6 +163,7 @@ def run_(ctx, nvx):
         impl = wsrun.run_impl(senders, fw, nproc=16, nvx_dir=nvx)
         nomodel = [bool(s["cfg"].get("pmce")) for s in senders]
         model = wsrun.run_model(ctx.driver, [dict(s, cfg=dict(s["cfg"], pmce=0)) for s in senders], fw)
+        impl = wsrun.stabilise(senders, fw, impl, model, res.notes, nvx_dir=nvx, skip=nomodel)
         res.evaluations += len(senders)
         for i, (s, a, b) in enumerate(zip(senders, impl, model)):
             pr = wsoracle.Proj(a, s["cfg"])
@@ -206,6 +207,7 @@ def run_(ctx, nvx):
             # native (rebuilt NVX) masker/validator for one receiver framework, pure Python for the other
             impl = wsrun.run_impl(recv_scripts, rfw, nproc=16, nvx_dir=nvx if (rfw == "twisted" or sfw == "twisted") else None)
             model = wsrun.run_model(ctx.driver, recv_scripts, rfw)
+            impl = wsrun.stabilise(recv_scripts, rfw, impl, model, res.notes, skip=[bool(senders[i]["cfg"].get("pmce")) for i in meta])
             res.evaluations += len(recv_scripts)
             res.count(f"pair:{sfw}->{rfw}", len(recv_scripts))
             for sc, i, a, b in zip(recv_scripts, meta, impl, model):
